@@ -490,6 +490,31 @@ class Fn:
         self._cache["arguses"] = d
         return d
 
+    def promoted(self, idx):
+        ps = self.j.get("promoted") or []
+        if idx is None or idx >= len(ps):
+            return None
+        key = ("prom", idx)
+        if key not in self._cache:
+            self._cache[key] = Fn(ps[idx], self.crate, self.form)
+        return self._cache[key]
+
+    def promoted_variants(self, op):
+        """for an operand that is a promoted constant: the (adt, variant) aggregates built in the promoted body"""
+        if op.const is None or "promoted" not in op.const:
+            return []
+        p = self.promoted(op.const["promoted"])
+        out = []
+        if p is None:
+            return out
+        for b in p.blocks:
+            for s in b.stmts:
+                if s.k == "assign" and s.rv.k == "agg" and s.rv.j.get("adt"):
+                    out.append((s.rv.j["adt"], s.rv.j.get("variant")))
+                if s.k == "assign" and s.rv.k == "use" and s.rv.ops[0].is_const() and "v" in s.rv.ops[0].const:
+                    out.append(("const", s.rv.ops[0].const["v"]))
+        return out
+
     def stmt_pos(self, blk, idx):
         return (blk, idx if idx is not None else len(self.blocks[blk].stmts))
 
